@@ -64,6 +64,58 @@ CHECKS['C08'] = dict(
               'extracted model against DashTiming + property oracle on instant pairs',
     design='C08')
 
+SEG_NOTE = (TB + 'float rounding in timescale_to_timedelta / scale_timedelta / total_seconds modelled as exact rationals (cases where the '
+            'implementation equals the model at now +-2 us are counted, not diffed); Jinja printing of the timeline and Flask routing '
+            'are exercised at HTTP level only; harness/shims stand-ins are used to import the handlers; timing inputs (elapsed, depth, '
+            'firstAvailableTime, leeway) are taken from the real DashTiming (C08).')
+
+CHECKS['C02'] = dict(
+    text='Theorems (unbounded: every representation with >= 2 segments, irregular durations, any timescale/reference, any clock, '
+         'depth and loop count): C02_time_exact (a served $Time$=t of any live timeline entry comes from that very segment with '
+         'baseMediaDecodeTime = t and the stored sample duration; S@d = that duration + drift on the loop-final entry), C02_gapless '
+         '(t+d = next t across loops; every entry is a canonical (loop, segment) start), C02_number (sequence number N, decode time '
+         'within half a segment + drift of (N-startNumber)*duration), C02_alignment (tfdt mod reference duration = source position, '
+         'both modes), C02_wrap_stops (termination argument of the index loop); C02_refuted_drift is the recorded finding. Tied to '
+         '/repo by differential runs of Representation/DashTiming/LiveMedia index functions and over HTTP on the bbb fixtures.',
+    note=SEG_NOTE + ' Exact-time theorems assume the file starts at decode time 0 and d_n + drift >= 1.',
+    technique='Coq proof (induction over the segment walk and the timeline loop, prefix-sum arithmetic) + differential correspondence '
+              '(function level and HTTP) + property oracle',
+    design='C02')
+
+CHECKS['C09'] = dict(
+    text='Theorems (unbounded): C09_agree (two live timelines of one representation, any two instants and depths, agree on every '
+         'segment start they both list: same duration, same source segment), C09_window_forward (the first listed start is monotone '
+         'in the clock), C09_first_entry, C09_publish_monotone (publishTime never decreases for equal availabilityStartTime; from C08). '
+         'The patch clause (patch applied to the T1 document = manifest at T2, originalPublishTime, mpdId) is decided over HTTP on the '
+         'real ServePatch handler with the harness applying the replace operations - it is the same timeline function at T2, so the '
+         'timeline theorems carry over; no separate Coq model of the Jinja patch template.',
+    note=SEG_NOTE + ' Patch application uses lxml and the three selector forms the patch template emits.',
+    technique='Coq proof (uniqueness of the canonical (loop, segment) decomposition; monotonicity of the segment walk) + differential '
+              'correspondence + HTTP patch application',
+    design='C02-C09')
+
+CHECKS['C01'] = dict(
+    text='Theorem C01_time_available_partial (unbounded: any representation, clock, depth, loop count): every live timeline entry whose '
+         'end is not later than now passes the handler\'s availability test and is mapped to its own segment, provided '
+         'leeway*timescale >= (max_d/2+1)*10^6; C01_refuted_leeway shows the bound is needed (recorded finding). The first/last number '
+         'window and the $Number$ half are decided by correspondence + oracle (findings leeway / number-window), the URL half and the '
+         'init segments over HTTP: every URL a fetched manifest spells out is requested at the manifest\'s instant.',
+    note=SEG_NOTE + ' PARTIAL: the theorem covers the availability test of $Time$ addressing; number-window refusals are found by search, not excluded by proof.',
+    technique='Coq proof (tick/microsecond rounding arithmetic over the timeline invariant) + differential correspondence + exhaustive '
+              'per-manifest fetch of advertised URLs',
+    design='C02-C09')
+
+CHECKS['C06'] = dict(
+    text='Theorems (unbounded): C06_enumeration (numbers startNumber..startNumber+n-1 are served from their own segment with prefix-sum '
+         'decode times), C06_past_end (anything else is refused), C06_gapless_total (decode times chain, start at the first decode '
+         'time, total = media duration), C06_vod_time_partial ($Time$ of static timeline entry k maps to segment k+1 inside the '
+         'quarter-segment window), C06_ranges_tile / C06_ranges_last (SegmentList ranges of a contiguous segment table tile the file); '
+         'C06_refuted_irregular and C06_refuted_vod_overshoot are recorded findings. Declared duration and the indexer\'s segment table '
+         'are checked on the fixture files and over HTTP (vod/odvod manifests, every enumerated segment fetched).',
+    note=SEG_NOTE + ' Representation.load (the indexer) is executed, not modelled: contiguity of its table is a premise checked per file.',
+    technique='Coq proof (prefix sums, list induction) + differential correspondence + HTTP enumeration + independent box walker',
+    design='C02-C09')
+
 NOT_YET = {
 }
 
